@@ -20,6 +20,7 @@ import (
 	"sort"
 	"strings"
 	"sync"
+	"sync/atomic"
 	"syscall"
 
 	"verifharness/vutil"
@@ -329,12 +330,21 @@ func (r *runner) put(c *cache.Cache, o Op) string {
 	if len(blocks[o.C]) > 0 {
 		src.first = len(blocks[o.C][0])
 	}
-	_, _, err := c.Put(actionID(o.ID), src)
+	// the two entry points that take a reader promise the same (PutNoVerify only opts out of the GODEBUG=gocacheverify
+	// comparison): they take turns
+	var err error
+	if atomic.AddInt64(&putSeq, 1)%2 == 0 {
+		_, _, err = c.PutNoVerify(actionID(o.ID), src)
+	} else {
+		_, _, err = c.Put(actionID(o.ID), src)
+	}
 	if err != nil {
 		return "err"
 	}
 	return "ok"
 }
+
+var putSeq int64
 
 func (r *runner) actor(c *cache.Cache, name string, ops []Op) func() {
 	return func() {
